@@ -191,7 +191,8 @@ def epRxChunk (st : EpSt) (c : RawChunk) : EpSt :=
         let rw := if st.cumAcked == some cum then min st.bestRwnd arwnd.toNat else arwnd.toNat
         let un := (st.unacked.filter (fun e => tsnGt e.1 cum)).map (fun e => (e.1, e.2.1, e.2.2 || inGaps cum gaps e.1))
         { st with cumAcked := some cum, bestRwnd := rw, unacked := un, afterT3 := st.afterT3 && !un.isEmpty,
-                  t3Count := if un.isEmpty then 0 else st.t3Count }
+                  -- the T3 excuse counts expiries since the last SACK that moved the cumulative TSN
+                  t3Count := if un.isEmpty || st.cumAcked != some cum then 0 else st.t3Count }
       else
         { st with unacked := st.unacked.map (fun e => (e.1, e.2.1, e.2.2 || inGaps cum gaps e.1)) }
     | none => st
